@@ -225,6 +225,11 @@ bool QXmppRosterManager::handleStanza(const QDomElement &element)
         return false;
     }
 
+    // a roster request sent to this client is not ours to answer: let the fallback reply with an error
+    if (element.attribute(u"type"_s) == u"get") {
+        return false;
+    }
+
     QXmppRosterIq rosterIq;
     rosterIq.parse(element);
 
@@ -233,6 +238,7 @@ bool QXmppRosterManager::handleStanza(const QDomElement &element)
         // send result iq
         QXmppIq returnIq(QXmppIq::Result);
         returnIq.setId(rosterIq.id());
+        returnIq.setTo(fromJid);
         client()->sendPacket(returnIq);
 
         // store updated entries and notify changes
